@@ -287,6 +287,7 @@ func (in *interpreter) guardViolation(g guard, write bool) {
 }
 
 func (in *interpreter) checkGuard(addr *value, write bool) {
+	in.raceAccess(addr, write)
 	if len(in.guards) == 0 {
 		return
 	}
@@ -298,6 +299,7 @@ func (in *interpreter) checkGuard(addr *value, write bool) {
 }
 
 func (in *interpreter) checkGuardMap(m *omap, write bool) {
+	in.raceAccessMap(m, write)
 	if len(in.guards) == 0 || m == nil {
 		return
 	}
